@@ -93,11 +93,14 @@ class _TextCueParser:
       if self.ruby_rbc is not None or self.ruby_rtc is not None:
         raise ValueError("Nested ruby tags are not allowed.")
       span = model.Ruby(self.parent.get_doc())
+      span.set_lang(self.parent.get_lang())
 
       # wrap <rb> and <rt> into <rbc> and <rtc>
 
       self.ruby_rbc = model.Rbc(self.parent.get_doc())
+      self.ruby_rbc.set_lang(self.parent.get_lang())
       self.ruby_rtc = model.Rtc(self.parent.get_doc())
+      self.ruby_rtc.set_lang(self.parent.get_lang())
       span.push_children([self.ruby_rbc, self.ruby_rtc])
       self.parent.push_child(span)
       self.parent = span
@@ -109,6 +112,7 @@ class _TextCueParser:
 
     elif tag.startswith("rt"):
       span = model.Rt(self.parent.get_doc())
+      span.set_lang(self.ruby_rtc.get_lang())
       self.ruby_rtc.push_child(span)
       self.parent = span
       return
@@ -181,13 +185,16 @@ class _TextCueParser:
 
     for i, line in enumerate(lines):
       if i > 0:
-        self.parent.push_child(model.Br(self.parent.get_doc()))
+        br = model.Br(self.parent.get_doc())
+        br.set_lang(self.parent.get_lang())
+        self.parent.push_child(br)
       span = self._make_span(self.parent)
       if self.ts_offset is not None:
         span.set_begin(self.ts_offset)
       span.push_child(model.Text(self.parent.get_doc(), line))
       if isinstance(self.parent, model.Ruby):
         rb = model.Rb(self.parent.get_doc())
+        rb.set_lang(self.parent.get_lang())
         rb.push_child(span)
         self.ruby_rbc.push_child(rb)
       else:
@@ -195,6 +202,8 @@ class _TextCueParser:
 
   def _make_span(self, parent: model.ContentElement) -> model.Span:
     span = model.Span(self.parent.get_doc())
+    # the language set by an enclosing <lang> tag applies to everything inside it
+    span.set_lang(parent.get_lang())
     if isinstance(parent, model.P):
       span.set_style(styles.StyleProperties.BackgroundColor, _DEFAULT_BG_COLOR)
     return span
